@@ -387,6 +387,7 @@ def Api.regs (a : Api) : List Reg := a.frs.flatMap fun f => deref a.heap f.1
 inductive RunOpt where
   | notFound (h : Option H)      -- rest.WithNotFoundHandler(h)
   | notAllowed (h : Option H)    -- rest.WithNotAllowedHandler(h)
+  | chain (n : Nat)              -- rest.WithChain(chain.New(c1 … cn)): `svr.ngin.chain = chn` (replaces the native chain)
   | router                       -- rest.WithRouter(router.NewRouter()): `server.router = router` (a FRESH patRouter:
                                  -- whatever an earlier option installed on the old router is gone, including the
                                  -- engine's not-found wrapper that `NewServer` puts in front of the user's options)
@@ -396,11 +397,13 @@ inductive RunOpt where
 structure Server where
   router : PatRouter := {}
   groups : List Group := []      -- `engine.routes`, in `AddRoutes` order
+  chain : Option Nat := none     -- `engine.chain` (`WithChain`): the number of middlewares of the custom chain
 
 def Server.apply (s : Server) : RunOpt → Server
   | .notFound h => { s with router := { s.router with notFound := some (.engine h) } }
   | .notAllowed h => { s with router := { s.router with notAllowed := h } }
   | .router => { s with router := {} }
+  | .chain n => { s with chain := some n }
 
 /-- `rest.NewServer(c, opts...)`: `opts = append([]RunOption{WithNotFoundHandler(nil)}, opts...)`, applied in order. -/
 def newServer (opts : List RunOpt) : Server :=
@@ -460,6 +463,45 @@ def Server.start (s : Server) : Server × StartResult :=
 
 /-- `rest.MustNewServer(c, opts...)`: `NewServer(c, opts...)` (the error branch — `c.SetUp()` failing — ends the process). -/
 def mustNewServer (opts : List RunOpt) : Server := newServer opts
+
+/-! #### what `engine.bindRoute` puts in front of a route handler -/
+
+/-- `handler.Authorize(secret[, WithPrevSecret(prev)])` accepts a token signed with the secret or, when a previous
+secret is configured, with that one. -/
+def tokenOk (jwt : Option (String × String)) (auth : Option String) : Bool :=
+  match jwt with
+  | none => true
+  | some (a, b) => match auth with
+    | some t => t == a || (b != "" && t == b)
+    | none => false
+
+/-- one element of the chain `bindRoute` builds, outermost first. -/
+inductive Layer where
+  | chainMw (i : Nat)                  -- middleware i of the chain given to `WithChain` (instead of the native ones)
+  | auth (secret prev : String)        -- `appendAuthHandler`: the group's `WithJwt` / `WithJwtTransition`
+  | use (k : Nat)                      -- `Server.Use` middleware k (`ng.middlewares`, in `Use` order)
+  | routeMw (i : Nat)                  -- `rest.WithMiddlewares` middleware i wrapped around `route.Handler` itself
+  deriving Repr, DecidableEq
+
+/-- `bindRoute`: `chn := ng.chain` (or the native middlewares, which pass the request on), `appendAuthHandler`,
+`for _, middleware := range ng.middlewares { chn = chn.Append(...) }`, `chn.ThenFunc(route.Handler)`. -/
+def bindChain (chain : Option Nat) (jwt : Option (String × String)) (uses : List Nat) (nmw : Nat) : List Layer :=
+  ((List.range (chain.getD 0)).map fun i => Layer.chainMw (i + 1)) ++
+  (match jwt with | some (a, b) => [Layer.auth a b] | none => []) ++
+  uses.map Layer.use ++ (List.range nmw).map fun i => Layer.routeMw (i + 1)
+
+def Layer.tag : Layer → String
+  | .chainMw i => "c" ++ toString i
+  | .auth _ _ => "auth"
+  | .use k => "u" ++ toString k
+  | .routeMw i => toString i
+
+/-- a request with the bearer token `auth` goes down the chain: the middlewares that ran (in order) and whether
+the route handler is reached (`false`: the Authorize handler answered 401). -/
+def runChain (auth : Option String) : List Layer → List String × Bool
+  | [] => ([], true)
+  | .auth a b :: rest => if tokenOk (some (a, b)) auth then runChain auth rest else ([], false)
+  | l :: rest => (l.tag :: (runChain auth rest).1, (runChain auth rest).2)
 
 /-- a value stored in a `context.Context`. -/
 inductive CtxVal where
